@@ -15,6 +15,10 @@ for p in sorted(glob.glob(os.path.join(os.path.dirname(__file__), "..", "seeded"
     note = m.get("note", "")
     needs = (m.get("needs") or "").replace("\n", " ").replace("|", "/")
     rows.append("| %s | %s | %s | %s |" % (name, ", ".join(m.get("files") or ev.get("files") or []), needs[:160],
-                ("caught: " + "; ".join(s.split("/", 1)[-1] for s in sigs[:2])) if caught else ("MISSED" + (" - " + note if note else ""))))
+                (("caught after strengthening (%s): " % ev["first_result"] if ev.get("first_result") else "caught: ") +
+                 "; ".join(s.split("/", 1)[-1] for s in sigs[:2] or sum(
+                     [v[1] if isinstance(v, list) else v.get("signatures", [])
+                      for v in ev.get("after_strengthening", {}).get("checks", {}).get(name[:3], {}).values()], [])[:1]))
+                if caught else ("MISSED" + (" - " + note if note else ""))))
 print("| seeded change | files | needs | result (quick tier, seeds 1-2) |\n|---|---|---|---|")
 print("\n".join(rows))
